@@ -24,6 +24,7 @@ import gen_c14
 from gen_c14 import G
 
 EXC = ["Exception", "ValueError", "OSError", "SyntaxError", "AttributeError", "RecursionError"]
+EXC_EXTRA = ["KeyError", "AssertionError"]     # used by the message-shape part only
 SITES = ["db_load", "parse", "scan", "import_exec", "complete"]
 # model operation kind of each site
 SITE_KIND = {"db_load": "dbLoad", "db_parse": "dbLoad", "parse": "parse", "scan": "scan", "import_exec": "importExec",
@@ -41,6 +42,25 @@ HOOK_FUNCS = {
     "run_with_debugger_with_autoimport": "runWithDebugger",
     "reset_auto_importer_state": "resetCleanup",
 }
+
+
+MSGS = ["marker", "empty", "noargs", "multiline", "blankfirst", "badstr"]
+
+
+def make_exception(cls, msg, marker):
+    """the injected exception instance: what its message looks like is part of the fault"""
+    if msg == "empty":
+        return cls("")                       # `raise ValueError("")`
+    if msg == "noargs":
+        return cls()                         # bare `assert`, `raise KeyError()`
+    if msg == "multiline":
+        return cls(marker + "\nsecond line of the message\n  third line")
+    if msg == "blankfirst":
+        return cls("\n" + marker)
+    if msg == "badstr":
+        sub = type("Unprintable" + cls.__name__, (cls,), {"__str__": lambda self: (_ for _ in ()).throw(RuntimeError("INJECTED#__str__ raises"))})
+        return sub(marker)
+    return cls(marker)
 
 
 class Injected:
@@ -83,7 +103,9 @@ class Injected:
         self.log.append([self.cell, site, hook, fired["exc"] if fired else None])
         if fired:
             cls = getattr(__import__("builtins"), fired["exc"])
-            raise cls("INJECTED#%s#%s" % (inject_site, fired["exc"]))
+            e = make_exception(cls, fired.get("msg", "marker"), "INJECTED#%s#%s" % (inject_site, fired["exc"]))
+            e._verif_injected = True
+            raise e
 
 
 def install_injectors(inj):
@@ -99,7 +121,7 @@ def install_injectors(inj):
             try:
                 return fn(*a, **k)
             except Exception as e:
-                if "INJECTED#" not in str(e) and inj.log[pos][3] is None:
+                if inj.log[pos][3] is None and not getattr(e, "_verif_injected", False):
                     inj.log[pos][3] = "natural:" + type(e).__name__
                 raise
         wrapped.__name__ = getattr(fn, "__name__", site)
@@ -116,7 +138,7 @@ def install_injectors(inj):
         try:
             return orig_get_default(cls, *a, **k)
         except Exception as e:
-            if "INJECTED#" not in str(e):
+            if inj.log[pos][3] is None and not getattr(e, "_verif_injected", False):
                 inj.log[pos][3] = "natural:" + type(e).__name__
             raise
         finally:
@@ -135,7 +157,8 @@ def install_injectors(inj):
         try:
             r = builtins.exec(stmt, ns, *a)
         except Exception as e:
-            inj.log[pos][3] = "natural:" + type(e).__name__
+            if not getattr(e, "_verif_injected", False):
+                inj.log[pos][3] = "natural:" + type(e).__name__
             raise
         if isinstance(stmt, str):
             inj.imported.append(stmt)
@@ -197,7 +220,7 @@ def _normalise_out(s):
     import re
     s = re.sub(r" at 0x[0-9a-f]+", " at 0x?", s)
     s = re.sub(r"\x1b\[[0-9;]*m", "", s)
-    return s[-3000:]
+    return s[-20000:]
 
 
 def run_c13(job):
@@ -236,7 +259,7 @@ def run_c13(job):
                     exec(stmt, ip.user_ns)
                 except Exception:
                     pass
-            if cell.get("ck") in ("run", "run_plain"):
+            if cell.get("ck") in ("run", "run_plain", "run_odd", "run_odd_needs"):
                 # %run executes the script in its own namespace; lend it the pre-bound names through builtins
                 scratch = {}
                 for stmt in preseed[i]:
@@ -308,7 +331,7 @@ def gen_cell(rng, k, mods_dir):
         ("known", 6), ("known_fn", 2), ("print_known", 2), ("plain", 2), ("assign_use", 1), ("unknown", 2),
         ("bad", 2), ("pinfo", 2), ("multi", 2), ("syntaxerr", 1), ("raise", 1), ("prun", 1), ("run", 2),
         ("run_plain", 1), ("debug", 1), ("complete_global", 3), ("complete_attr", 3), ("complete_attr_bound", 1),
-        ("two_known", 1), ("autocall", 1),
+        ("two_known", 1), ("autocall", 1), ("run_odd", 3), ("run_odd_needs", 1),
     ]
     kind = rng.choices([a for a, _ in kinds], weights=[b for _, b in kinds])[0]
     return make_cell(kind, i, k, mods_dir)
@@ -344,6 +367,11 @@ def make_cell(kind, i, k, mods_dir):
         return run(f"%run {mods_dir}/zzq_script.py")
     if kind == "run_plain":
         return run(f"%run {mods_dir}/zzq_script_plain.py")
+    if kind in ("run_odd", "run_odd_needs"):
+        d, fn = gen_c14.ODD_PATHS[k % len(gen_c14.ODD_PATHS)]
+        path = f"{mods_dir}/{d}/{fn}_{'plain' if kind == 'run_odd' else 'needs'}.py"
+        # %run splits its argument line like a POSIX shell: double quotes keep blanks and quotes in the path
+        return run('%run "' + path.replace("\\", "\\\\").replace('"', '\\"') + '"')
     if kind == "debug":
         return run(f"%debug {k}+2")
     if kind == "two_known":
@@ -363,6 +391,9 @@ def gen_faults(rng, nmax=3):
     n = rng.choice([0, 1, 1, 1, 2, 2, 3][: 4 + nmax])
     out = []
     for _ in range(n):
-        out.append(dict(site=rng.choice(SITES), exc=rng.choice(EXC), nth=rng.choice([1, 1, 1, 2, 2, 3]),
-                        persist=rng.random() < 0.4))
+        f = dict(site=rng.choice(SITES), exc=rng.choice(EXC), nth=rng.choice([1, 1, 1, 2, 2, 3]),
+                 persist=rng.random() < 0.4)
+        if rng.random() < 0.45:
+            f["msg"] = rng.choice(MSGS[1:])
+        out.append(f)
     return out
